@@ -305,7 +305,13 @@ where
                     // done concurrently.
                     loop {
                         select! {
-                            Some(message) = stream.next().instrument(span.clone()), if !sync_done_received => {
+                            message = stream.next().instrument(span.clone()), if !sync_done_received => {
+                                // The remote closed the stream before sending `Done`: the session
+                                // can't complete anymore.
+                                let Some(message) = message else {
+                                    debug!(parent: &span, "Stream closed unexpectedly");
+                                    return Err(LogSyncError::UnexpectedStreamClosure);
+                                };
                                 let message =
                                     message
                                     .inspect_err(|error| debug!(parent: &span, ?error, "Log sync error"))
